@@ -170,6 +170,18 @@ def main(argv=None):
                 ck.violation(f"implementation and model disagree at frame {st}; provenance oracle passed", rep,
                              found_input=False)
                 break
+        tr_p, err_p = ic.run_impl(RX, [], 0, 0, frames, False) if i % 4 == 0 else (None, "skipped")
+        if err_p is None:
+            # the same stream for a consumer which only takes the first telegram of each call and never resumes the generator
+            part = ic.run_impl_partial(RX, frames)
+            drained = [t for ts, _, _ in tr_p for t in ts]
+            rep = {"rx": RX, "frames": [[f, bytes(d).hex()] for f, d in frames], "label": label, "decoder": "passive"}
+            ck.count(("partial", tuple((f, bytes(d)) for f, d in frames)))
+            if part != drained:
+                ck.violation("a consumer which does not resume decode_rx_frame() behind the first telegram gets other telegrams than one "
+                             f"which drains it: {part if isinstance(part, tuple) else [bytes(t).hex() for _, t in part][:4]} instead of "
+                             f"{[bytes(t).hex() for _, t in drained][:4]}", dict(rep, consumer="next(iter(decode_rx_frame(..)), None)"))
+                continue
         if i % 997 == 0:
             ck.sample({"label": label, "frames": [[f, bytes(d).hex()] for f, d in frames[:8]]})
     # the snoop tool end to end on lossy traffic of the shipped ECU: it never raises (responses without a request,
